@@ -360,9 +360,11 @@ def r02_6(ctx):
     ctx.check(ok, "DirectCollocation interpolation nodes [0]+tau", detail="nodes of the Lagrange basis", expected="tau_root = [0] + self.tau", found=ast.unparse(tr[0].value) if tr else None, fi=g)
 
 
-@rule("R02.7", min_instances=8, desc="pack order of the ODE's p input under DirectCollocation (same packing helper as shooting)")
+@rule("R02.7", min_instances=8, desc="pack order of the ODE's p input under DirectCollocation (same packing helper as shooting), every per-interval piece selected with the interval index")
 def r02_7(ctx):
+    from .c01 import r01_6
     check_pack_order(ctx)
+    r01_6(ctx)
 
 
 @rule("R02.8", min_instances=20, desc="layout of the collocation lists (layout interpreter, swept over N, M, degree): Xc[k][i] starts with X[k] / its own start variable, xr/xk/poly_coeff address the same interval, list lengths match their position kinds")
